@@ -234,6 +234,13 @@ fn check_array(arr: &StructArray, exp: &Expected, snap: &Snap) -> Result<(), Str
 		if data.len() != rows {
 			return Err(format!("{}: {} rows for {} frames", who, data.len(), rows));
 		}
+		// the enclosing structs carry no validity of their own: a null there would hide the characters below it
+		if let Some(b) = port.validity().filter(|b| b.unset_bits() > 0) {
+			return Err(format!("frame.ports.{} marks {} rows null at the PORT level: a character present in such a row reads as absent", port_name(c.0), b.unset_bits()));
+		}
+		if let Some(b) = ports.validity().filter(|b| b.unset_bits() > 0) {
+			return Err(format!("frame.ports marks {} rows null", b.unset_bits()));
+		}
 		for r in 0..rows {
 			let got = data.validity().map_or(true, |b| b.get_bit(r));
 			let want = exp.rows[r].chars[k].is_some();
